@@ -117,8 +117,70 @@ def recheck(ids):
     print(f"caught {n}/{len(rows)}")
 
 
+def benign(src, sid, skip_suite=False):
+    """A behaviour-preserving refactoring: the suite must pass and every check must stay silent."""
+    tree = make_tree()
+    res = {}
+    try:
+        rc, out = sh(f"git apply {src}/patch.diff", cwd=tree)
+        if rc:
+            print("patch does not apply:", out)
+            return None
+        if not skip_suite:
+            rc, out = sh("/venv/bin/python -m pytest -q -p no:cacheprovider --timeout=900 -q " + " ".join(f"--deselect {d}" for d in DESELECT), cwd=tree)
+            res["suite_with_patch"] = "passed" if rc == 0 else "FAILED"
+            print("suite:", res["suite_with_patch"])
+        caught, errors, rules, out = run_checks(tree)
+        res["violations_reported"] = caught
+        res["analysis_errors"] = errors
+        res["rules_fired"] = rules
+        res["detail"] = [l for l in out.splitlines() if l.startswith(("ANALYSIS-ERROR",)) or (": C" in l and not l.startswith(("KNOWN", "VIOLATION")) and "obligations=" not in l)][:12]
+        print("violations:", caught, "errors:", errors, rules)
+        for l in res["detail"]:
+            print("   ", l[:300])
+    finally:
+        drop_tree(tree)
+    dst = f"{VERIF}/seeded/benign/{sid}"
+    os.makedirs(dst, exist_ok=True)
+    shutil.copy(f"{src}/patch.diff", dst)
+    meta = json.load(open(f"{src}/meta.json")) if os.path.exists(f"{src}/meta.json") else {}
+    meta["verification"] = res
+    json.dump(meta, open(f"{dst}/meta.json", "w"), indent=1)
+    print("SILENT" if not res.get("violations_reported") and not res.get("analysis_errors") else "NOISY", sid)
+    return res
+
+
+def recheck_benign(ids):
+    base = f"{VERIF}/seeded/benign"
+    ids = ids or sorted(os.listdir(base))
+    tree = make_tree()
+    noisy = 0
+    try:
+        for sid in ids:
+            d = f"{base}/{sid}"
+            sh("git checkout -- tempest", cwd=tree)
+            sh("git clean -fdq tempest", cwd=tree)
+            rc, out = sh(f"git apply {d}/patch.diff", cwd=tree)
+            if rc:
+                print(sid, "PATCH-FAILS")
+                continue
+            caught, errors, rules, out = run_checks(tree)
+            meta = json.load(open(f"{d}/meta.json"))
+            meta.setdefault("verification", {}).update({"violations_reported": caught, "analysis_errors": errors, "rules_fired": rules})
+            json.dump(meta, open(f"{d}/meta.json", "w"), indent=1)
+            print(sid, "violations:", caught, "errors:", errors, rules)
+            noisy += bool(caught or errors)
+    finally:
+        drop_tree(tree)
+    print(f"noisy {noisy}/{len(ids)}")
+
+
 if __name__ == "__main__":
     if sys.argv[1] == "confirm":
         confirm(sys.argv[2], sys.argv[3], skip_suite="--skip-suite" in sys.argv)
     elif sys.argv[1] == "recheck":
         recheck(sys.argv[2:])
+    elif sys.argv[1] == "benign":
+        benign(sys.argv[2], sys.argv[3], skip_suite="--skip-suite" in sys.argv)
+    elif sys.argv[1] == "recheck-benign":
+        recheck_benign(sys.argv[2:])
